@@ -107,6 +107,7 @@ func c15Body(s *simkit.Sim, rc *simkit.RunCtx) {
 	}
 	dids := map[string]did.DID{}
 	kids := map[string]string{}
+	subjectOfOwner := map[string]string{}
 	// "outsider": an extra DID (hosted on the last node) that the scripted peer may authenticate as
 	// "keyless": a DID without a keyAgreement key: nothing can be encrypted for it
 	owners := append(append([]string{}, names...), "outsider", "keyless")
@@ -135,6 +136,7 @@ func c15Body(s *simkit.Sim, rc *simkit.RunCtx) {
 				return
 			}
 			dids[owner] = docs[0].ID
+			subjectOfOwner[owner] = subject
 			kids[owner] = docs[0].CapabilityInvocation[0].ID.String()
 			if owner == "keyless" {
 				err = n.VDR.Deactivate(world.Ctx(), subject) // a deactivated document has no keys at all
@@ -177,14 +179,19 @@ func c15Body(s *simkit.Sim, rc *simkit.RunCtx) {
 	s.Enable(true)
 
 	// ---- identities: the real authenticator decides ----
+	auths := map[string]grpc.Authenticator{}
 	authenticate := func(owner *seams.Endpoint, claim did.DID, certHost string, remoteID transport.PeerID, addr string) transport.Peer {
 		peer := transport.Peer{ID: remoteID, Address: addr}
 		if claim.Empty() {
 			return peer // anonymous
 		}
 		peer.Certificate = &x509.Certificate{DNSNames: []string{certHost}}
-		ownerNode := w.Nodes[owner.Name]
-		auth := grpc.NewTLSAuthenticator(resolver.DIDServiceResolver{Resolver: ownerNode.DIDs})
+		// one authenticator per node, as in the real connection manager (it lives as long as the node)
+		auth := auths[owner.Name]
+		if auth == nil {
+			auth = grpc.NewTLSAuthenticator(resolver.DIDServiceResolver{Resolver: w.Nodes[owner.Name].DIDs})
+			auths[owner.Name] = auth
+		}
 		if p2, err := auth.Authenticate(claim, peer); err == nil {
 			return p2
 		}
@@ -474,6 +481,43 @@ func c15Body(s *simkit.Sim, rc *simkit.RunCtx) {
 		return
 	}
 	s.Advance(30 * time.Second)
+	// ---- the NutsComm endpoint of the "outsider" DID moves to another host: the certificate of the former host no longer authenticates as that DID ----
+	if s.D.Decide("nutscomm-moves", 3) == 2 && !s.Failed() {
+		var witnesses []string
+		for _, name := range names {
+			if byzIdentity[name] == "authenticated-unlisted" {
+				witnesses = append(witnesses, name) // these have authenticated the scripted peer as "outsider" (certificate for byz.sim)
+			}
+		}
+		hostNode := w.Nodes[names[nn-1]]
+		var moveErr error
+		if len(witnesses) > 0 {
+			s.Do("move-nutscomm", 2*time.Minute, func() {
+				typ := transport.NutsCommServiceType
+				svcs, err := hostNode.VDR.FindServices(world.Ctx(), subjectOfOwner["outsider"], &typ)
+				if err != nil || len(svcs) == 0 {
+					moveErr = fmt.Errorf("no NutsComm service: %v", err)
+					return
+				}
+				_, moveErr = hostNode.VDR.UpdateService(world.Ctx(), subjectOfOwner["outsider"], svcs[0].ID, did.Service{Type: transport.NutsCommServiceType, ServiceEndpoint: "grpc://elsewhere.sim:5555"})
+			})
+			if moveErr == nil && s.RunUntil(sameDAG, 5*time.Minute, 500*time.Millisecond) {
+				s.Advance(5 * time.Second)
+				s.Probes.Inc("nutscomm-endpoint-moved")
+				for _, name := range witnesses {
+					ep := w.P2P.Endpoint(name)
+					if ep == nil {
+						continue
+					}
+					p2 := authenticate(ep, dids["outsider"], "byz.sim", "peer-byz", "byz.sim:5555")
+					if p2.Authenticated {
+						s.Fail("C15.leak", "authenticated-with-certificate-of-former-host", "node %s authenticates a peer with a certificate for byz.sim as %s although that DID's NutsComm endpoint has moved to elsewhere.sim: it would be given the private payloads addressed to that DID", name, dids["outsider"])
+						return
+					}
+				}
+			}
+		}
+	}
 	// ---- closing oracles ----
 	bmu.Lock()
 	got := byzGot
